@@ -46,11 +46,11 @@ pub const PROPS: &[PropInfo] = &[
 ];
 
 pub const CRASH_PROPS: &[PropInfo] = &[
-    PropInfo { id: "C01", engine: Engine::Crash, level: "fault_enumeration", quick_runs: 200, thorough_runs: 6000, watchdog_s: 60,
+    PropInfo { id: "C01", engine: Engine::Crash, level: "fault_enumeration", quick_runs: 600, thorough_runs: 6000, watchdog_s: 60,
         rule: "one case = one history (DDL, autocommit statements, multi-statement sessions, batches, checkpoints, reopen) run with the I/O tap on, then EVERY prefix of its recorded file mutations rebuilt as an on-disk image, recovered with Database::open and judged against the acknowledged state; evaluations counts histories, coverage.crash_points counts images; non-trivial = the history had at least one crash point after an acknowledged commit; distinct = distinct fingerprints of (logical event log, I/O sequence)" },
-    PropInfo { id: "C02", engine: Engine::Crash, level: "fault_enumeration", quick_runs: 160, thorough_runs: 6000, watchdog_s: 60,
+    PropInfo { id: "C02", engine: Engine::Crash, level: "fault_enumeration", quick_runs: 400, thorough_runs: 6000, watchdog_s: 60,
         rule: "as C01, with a mix forcing transactions that are open, rolled back, dropped or failed at the crash point and small caches; non-trivial = at least one crash point fell while a transaction was open or after one was rolled back; distinct = distinct fingerprints of (logical event log, I/O sequence)" },
-    PropInfo { id: "C08", engine: Engine::Crash, level: "fault_enumeration", quick_runs: 48, thorough_runs: 2000, watchdog_s: 90,
+    PropInfo { id: "C08", engine: Engine::Crash, level: "fault_enumeration", quick_runs: 96, thorough_runs: 2000, watchdog_s: 90,
         rule: "one case = one history; for every I/O prefix: open must succeed, a smoke transaction must work, close+open must change nothing, and for up to 24 prefixes of the recovery's own I/O (nested, depth 2) the restarted recovery must yield the same contents; non-trivial = at least one nested crash point was evaluated; distinct = distinct fingerprints" },
 ];
 
